@@ -355,6 +355,19 @@ def leaf_cases(cs, model, cfg, ci, leaves, bw, fw, B):
                 cs.add(f"run_logit {e} {l} {n} {C.qlit(a)} {C.qlit(float(m.ldj))} {ql(x)} {ql(np_(b['out'][r]))} {C.qlit(ldj_row(b['ldj'], r))} "
                        f"{ql(fu)} {ql(np_(f['out'][r]))} {C.qlit(ldj_row(f['ldj'], r))}",
                        what="logit", row=r, flags="1 u 2 ildj 4 x 8 ldj 16 registered constant != -dims*log(1-2alpha)", **base)
+            # the forward map is defined (and invertible) on the whole real line: latent values beyond +-log((1-alpha)/alpha), whose
+            # images fall outside [0, 1], go through the same formula (no clipping)
+            x = np_(b["x"][0]).reshape(-1); xp = a + (1.0 - 2.0 * a) * x
+            edge = math.log((1.0 - a) / a)
+            fu = np.where(np.arange(n) % 2 == 0, 1.0, -1.0) * (edge + 0.25 + 0.5 * (np.arange(n) % 3))
+            with torch.no_grad():
+                fo, fl = m.apply_forward(torch.tensor(fu, dtype=b["x"].dtype).reshape((1,) + shape))
+            sg = 1.0 / (1.0 + np.exp(-fu))
+            l = table(list(xp) + list(1.0 - xp) + [1.0 - 2.0 * a] + list(sg) + list(1.0 - sg), math.log)
+            e = table(list(-fu), math.exp)
+            cs.add(f"run_logit {e} {l} {n} {C.qlit(a)} {C.qlit(float(m.ldj))} {ql(x)} {ql(np_(b['out'][0]))} {C.qlit(ldj_row(b['ldj'], 0))} "
+                   f"{ql(fu)} {ql(np_(fo[0]))} {C.qlit(ldj_row(fl, 0))}",
+                   what="logit-beyond-the-unit-interval", row=0, flags="1 u 2 ildj 4 x 8 ldj 16 registered constant != -dims*log(1-2alpha)", **base)
 
 
 def wiring_cases(cs, model, cfg, ci, bw, B):
